@@ -84,13 +84,15 @@ def constants(chk, init, c):
 # -- 2 typestate -----------------------------------------------------------------
 class St:
     def __init__(self, flag, size, member):
-        self.flag, self.size, self.member = flag, size, member   # size: 'lt' | 'eq' | '?' ; member: True/False
+        self.flag, self.size, self.member = flag, size, member   # size: 'lt' (n <= cap-2) | 'cm1' (n == cap-1) | 'eq' (n == cap) | '?' ; member: True/False
+        self.delta = 0          # values added to the warm-up set by this call so far (the size tests see n + delta)
         self.effects = []
         self.set_is_dict = flag
         self.returned = False
 
     def __repr__(self):
-        return f'{"SKETCH" if self.flag else "EXACT"}(size{"<" if self.size == "lt" else "="}cap, value {"in" if self.member else "not in"} set)'
+        sz = {'lt': 'size<cap', 'cm1': 'size=cap-1', 'eq': 'size=cap'}.get(self.size, 'size?')
+        return f'{"SKETCH" if self.flag else "EXACT"}({sz}, value {"in" if self.member else "not in"} set)'
 
 
 def _is_self_attr(e, attr=None):
@@ -162,8 +164,11 @@ class AddInterp:
         # abstract sizes: 'lt' stands for every n in [0, cap-1] (we need the answer to be uniform), 'eq' for n == cap
         if st.size == 'eq':
             n_vals = [0]
+        elif st.size == 'cm1':
+            n_vals = [-1]
         else:
-            n_vals = [-self.c['warmup_size'], -1]   # n - cap for n = 0 and n = cap-1
+            n_vals = [-self.c['warmup_size'], -2]   # n - cap for n = 0 and n = cap-2
+        n_vals = [d + st.delta for d in n_vals]
         res = set()
         for d in n_vals:
             a, b = d, off
@@ -218,7 +223,7 @@ class AddInterp:
                 st.effects.append(('set_add', a.id if isinstance(a, ast.Name) else ast.unparse(a)))
                 if isinstance(a, ast.Name) and a.id == self.value:
                     if not st.member:
-                        st.size = '?'
+                        st.delta += 1
                     st.member = True
                 return
             if isinstance(f, ast.Attribute) and f.attr in self.upd_names and isinstance(f.value, ast.Name) and f.value.id == 'self' and len(c.args) == 1:
@@ -294,7 +299,7 @@ def typestate(chk, add, consts, upd=None):
     if 'warmup_size' not in consts:
         chk.unsure('C14.2', 'R18', add.site(), 'add', 'capacity constant unknown')
         return
-    states = [St(False, 'lt', True), St(False, 'lt', False), St(False, 'eq', True), St(False, 'eq', False), St(True, 'lt', False)]
+    states = [St(False, 'lt', True), St(False, 'lt', False), St(False, 'eq', True), St(False, 'eq', False), St(True, 'lt', False), St(False, 'cm1', True), St(False, 'cm1', False)]
     interp = AddInterp(add, consts, upd)
     v = interp.value
     vdefs = [n for n in own_nodes(add.node) if isinstance(n, (ast.Assign, ast.AugAssign)) and any(isinstance(t, ast.Name) and t.id == v for t in (n.targets if isinstance(n, ast.Assign) else [n.target]))]
@@ -320,6 +325,11 @@ def typestate(chk, add, consts, upd=None):
             bad = converted or any(k == 'update' for k in kinds)
             chk.expect(not bad, 'C14.2a', 'R18', add.site(), desc, 're-adding a present value in the exact phase changes nothing',
                        f'in state {name} re-adding a value that is already in the warm-up set triggers a conversion or a register update: the estimate changes when a seen value is re-added')
+        elif not pre_flag and st is states[6]:
+            # one below the capacity: the new value still fits (the count is exact up to and including the capacity)
+            good = ('set_add', v) in eff and not converted and not any(k == 'update' for k in kinds)
+            chk.expect(good, 'C14.2b', 'R18', add.site(), desc, 'the value that fills the warm-up set to its capacity is stored exactly, no conversion yet',
+                       f'in state {name} the value must simply be added to the warm-up set: converting here ends the exact phase one value early (at exactly {consts["warmup_size"]} distinct values the size is an estimate instead of the exact count)')
         elif not pre_flag and st is states[1]:
             derived_add = [e for e in eff if e[0] == 'set_add' and e[1] != v]
             if derived_add:
